@@ -6,6 +6,9 @@ From SV Require Import Base.Bytes Generated.SourceParams.
 Import ListNotations.
 From SV Require Import Model.Time.
 
+Lemma time_translated : src_problems_time = 0%nat.
+Proof. reflexivity. Qed.
+
 (* ---- src/time.rs ---- *)
 Lemma is_leap_year_tie y : src_is_leap_year y = is_leap_year y.
 Proof.
